@@ -17,6 +17,8 @@ if prop.startswith("U"):
     wt = f"/tmp/wt5-{prop}"; out = f"/tmp/seedout5-{prop}"
 if prop.startswith("V"):
     wt = f"/tmp/wt8-{prop}"; out = f"/tmp/seedout8-{prop}"
+if prop.startswith("W"):
+    wt = f"/tmp/wt9-{prop}"; out = f"/tmp/seedout9-{prop}"
 env = dict(os.environ, GOFLAGS="-mod=mod", GOPROXY="off", GOSUMDB="off", GOTOOLCHAIN="local")
 def run(cmd, cwd=wt):
     p = subprocess.run(cmd, cwd=cwd, shell=True, env=env, capture_output=True, text=True, errors="replace")
@@ -29,6 +31,9 @@ patch = f"{out}/{var}.patch.diff"; demo = f"{out}/{var}_demo_test.go"
 src = open(demo).read()
 pkg = re.search(r'^package\s+(\w+)', src, re.M).group(1)
 d = {"keeper_test": "keeper", "keeper": "keeper", "service_test": ".", "service": ".", "types_test": "types", "types": "types"}[pkg]
+mdir = re.match(r'//\s*dir:\s*(\S+)', src)
+if mdir:
+    d = mdir.group(1)
 tests = re.findall(r'^func (Test\w+)\(', src, re.M)
 suite = re.findall(r'^func \(\w+ \*?(\w+)\) (Test\w+)\(', src, re.M)
 res = {"property": prop, "variant": var, "demo_dir": d, "tests": tests, "suite_tests": suite}
